@@ -353,9 +353,9 @@ func c13(tier string, args []string) int {
 		"crash = the process dies immediately before or after a durable effect (state-store write or board append); restart = new LevelDBState + new services + new Poll loop on the same directory",
 		"canonical schedule; the other nodes are honest and never crash",
 	}
-	cfgs := []struct{ n, t, v int }{{2, 2, 0}}
+	cfgs := []struct{ n, t, v int }{{2, 2, 0}, {2, 2, 1}, {3, 2, 0}, {3, 2, 2}}
 	if tier == "thorough" {
-		cfgs = append(cfgs, struct{ n, t, v int }{2, 2, 1}, struct{ n, t, v int }{3, 2, 0}, struct{ n, t, v int }{3, 2, 2})
+		cfgs = append(cfgs, struct{ n, t, v int }{3, 3, 1}, struct{ n, t, v int }{4, 3, 0}, struct{ n, t, v int }{4, 3, 3}, struct{ n, t, v int }{4, 2, 1})
 	}
 	evals, distinct := 0, 0
 	for _, cf := range cfgs {
@@ -381,7 +381,7 @@ func c13(tier string, args []string) int {
 			}
 		}
 		plans = append(plans, plan{clean: true})
-		if tier == "thorough" && cf.n == 2 && cf.v == 0 {
+		if (tier == "thorough" && cf.n <= 3 && cf.t == 2) || (cf.n == 2 && cf.v == 0) {
 			// pairs of crashes (second one counted in the effects of the resumed run)
 			for e1 := 1; e1 <= E; e1 += 2 {
 				for e2 := e1 + 1; e2 <= E+6; e2 += 3 {
